@@ -38,6 +38,8 @@ type FuncResult struct {
 	Ex       *Exec
 }
 
+var solveSlots = make(chan struct{}, 12)
+
 type CheckOpts struct {
 	Prop     string
 	Tier     string
@@ -79,6 +81,13 @@ func pkgPatternsForProp(sp *Specs, prop string) []string {
 
 // verifyFunction generates and discharges the obligations of one function.
 func verifyFunction(P *Program, key string, opts CheckOpts) *FuncResult {
+	fr := generateFunction(P, key, opts)
+	solveFunction(fr, opts)
+	return fr
+}
+
+// generateFunction runs the symbolic execution (single-threaded).
+func generateFunction(P *Program, key string, opts CheckOpts) *FuncResult {
 	fr := &FuncResult{Key: key}
 	spec := P.Specs.Funcs[key]
 	fn := P.Funcs[key]
@@ -92,6 +101,16 @@ func verifyFunction(P *Program, key string, opts CheckOpts) *FuncResult {
 		fr.Err = err.Error()
 		return fr
 	}
+	return fr
+}
+
+// solveFunction discharges the generated obligations (parallel solver calls).
+func solveFunction(fr *FuncResult, opts CheckOpts) {
+	if fr.Err != "" || fr.Ex == nil {
+		return
+	}
+	ex := fr.Ex
+	spec := ex.spec
 	timeout := opts.TimeoutS
 	if spec.TimeoutS > 0 && opts.Tier != "thorough" {
 		timeout = spec.TimeoutS
@@ -106,7 +125,7 @@ func verifyFunction(P *Program, key string, opts CheckOpts) *FuncResult {
 		bySite[o.Site] = append(bySite[o.Site], o)
 	}
 	var wg sync.WaitGroup
-	sem := make(chan struct{}, 10)
+	sem := solveSlots
 	for _, o := range ex.obligs {
 		if o.Goal.IsTrue() {
 			o.Res = SolverResult{Status: "unsat", Backend: "trivial"}
@@ -123,9 +142,15 @@ func verifyFunction(P *Program, key string, opts CheckOpts) *FuncResult {
 			o.Res = Solve(ex.env.d, asserts, ex.inputs, timeout, opts.All, o.Site+" @"+o.Path)
 		}(o)
 	}
-	// covers
+	// covers: at most two path instances per return site
 	coverRes := make([]SolverResult, len(ex.covers))
+	perSite := map[string]int{}
 	for i, c := range ex.covers {
+		perSite[c.Site]++
+		if perSite[c.Site] > 2 {
+			coverRes[i] = SolverResult{Status: "skipped"}
+			continue
+		}
 		wg.Add(1)
 		go func(i int, c *Oblig) {
 			defer wg.Done()
@@ -133,7 +158,10 @@ func verifyFunction(P *Program, key string, opts CheckOpts) *FuncResult {
 			defer func() { <-sem }()
 			asserts := append([]*Term{}, ex.axioms...)
 			asserts = append(asserts, c.Hyps...)
-			coverRes[i] = Solve(ex.env.d, asserts, nil, min(timeout, 4), false, c.Site)
+			coverRes[i] = solveWith(backends[:1], ex.env.d, asserts, nil, 2, false, c.Site)
+			if coverRes[i].Status != "sat" && coverRes[i].Status != "unsat" {
+				coverRes[i] = solveWith(backends[2:3], ex.env.d, asserts, nil, 2, false, c.Site)
+			}
 		}(i, c)
 	}
 	wg.Wait()
@@ -180,6 +208,9 @@ func verifyFunction(P *Program, key string, opts CheckOpts) *FuncResult {
 			}
 			continue
 		}
+		if coverRes[i].Status == "skipped" {
+			continue
+		}
 		retSites[c.Site] = true
 		if coverRes[i].Status != "unsat" {
 			retSat++
@@ -198,7 +229,6 @@ func verifyFunction(P *Program, key string, opts CheckOpts) *FuncResult {
 			ex.warnings = append(ex.warnings, "unreachable return site "+s)
 		}
 	}
-	return fr
 }
 
 func truncate(s string, n int) string {
@@ -269,9 +299,17 @@ func runCheck(repo, verifDir string, opts CheckOpts, overlay map[string][]byte, 
 		if opts.OnlyFn != "" && !strings.Contains(k, opts.OnlyFn) {
 			continue
 		}
-		fr := verifyFunction(P, k, opts)
-		results = append(results, fr)
+		results = append(results, generateFunction(P, k, opts))
 	}
+	var fwg sync.WaitGroup
+	for _, fr := range results {
+		fwg.Add(1)
+		go func(fr *FuncResult) {
+			defer fwg.Done()
+			solveFunction(fr, opts)
+		}(fr)
+	}
+	fwg.Wait()
 	// summarise
 	nObl, nDis := 0, 0
 	byBackend := map[string]int{}
